@@ -62,6 +62,9 @@ def run(rep):
         if r.get("mismatch_diff"):
             rep.fail("foreign-accelerator-trusted", "with commit-graph and multi-pack-index copied from another repository the answers to %s differ" % r["mismatch_diff"], base)
     codec(rep, impl, model, rng, thorough)
+    # the peeled values cached in packed-refs, against Model/PeeledCache.v
+    import corr_C14_peeled
+    corr_C14_peeled.run(rep)
     # merge bases through the commit-graph vs the model on the parents read from the file
     reqs = [{"fn": "graph_lcas", "seed": rng.randrange(1 << 30), "n": rng.choice([5, 9, 16]), "writer": rng.choice(["dulwich", "git"])} for _ in range(12 if not thorough else 150)]
     lines, plan = [], []
